@@ -249,6 +249,32 @@ fn candidates(g: &Game, deal: &Deal, rng: &mut Rng, all_amounts: bool) -> Vec<Ac
     if board != 0 {
         v.push(Action::Draw(hand(rng.cards(want - 1, full & !in_play) | lowest(board)))); // a board card again
     }
+    // right-sized deals containing a card that is not a card of the 52-card deck at all (raw
+    // `Card::from(52..=63)`; `Hand::from(u64)` would mask it away, `Hand::from(Card)` does not)
+    for n in [52u8, 55, 63, 52 + rng.below(12) as u8] {
+        v.push(Action::Draw(hand_with_raw_card(rng.cards(want - 1, full & !in_play), n)));
+    }
+    v
+}
+
+/// deals that are well-formed for the 52-card deck but contain a card the *configured* deck does
+/// not have (short-deck build: ranks 2..5, card indices 0..15). The 52-card Lean model cannot
+/// answer these, so they go to the rules machine only.
+fn off_deck_deals(g: &Game, deal: &Deal, rng: &mut Rng) -> Vec<Action> {
+    let full = bits(hand(Hand::mask()));
+    let all52 = (1u64 << 52) - 1;
+    let missing = all52 & !full;
+    let mut v = vec![];
+    if missing == 0 {
+        return v;
+    }
+    let in_play = board_bits(g) | deal.h0 | deal.h1;
+    let st = (g.street() as isize as usize).min(2);
+    let want = if st == 0 { 3 } else { 1 };
+    for k in 0..4 {
+        let c = if k == 0 { 0u8 } else { rng.cards(1, missing).trailing_zeros() as u8 };
+        v.push(Action::Draw(hand_with_raw_card(rng.cards(want - 1, full & !in_play), c)));
+    }
     v
 }
 
@@ -270,66 +296,77 @@ fn probe(cx: &mut Ctx, rng: &mut Rng, deal: &Deal, deal_id: u64, hist: &[Action]
         cx.run.fail("turn", &format!("game {name}"), &format!("{:?}", nl.turn()), &turn_tok(g.turn()));
     }
     let cands = candidates(g, deal, rng, all_amounts);
+    let extra = off_deck_deals(g, deal, rng);
     let mut answer = String::with_capacity(cands.len());
-    let mut rejected = vec![];
-    for c in &cands {
+    let before = state_line(g);
+    for (ci, c) in cands.iter().chain(extra.iter()).enumerate() {
         cx.run.evaluations += 1;
         let gg = *g;
         let cc = *c;
         let got = catch(move || gg.is_allowed(&cc));
         let want = nl.permitted(c, full);
         cx.run.spec_checked += 1;
+        let on_line = ci < cands.len();
         match got {
             None => {
-                answer.push('P');
+                if on_line { answer.push('P'); }
                 cx.run.fail("is_allowed-panics", &format!("allowed {name} | {}", act_tok(c)), &format!("{want}"), "panic");
             }
             Some(b) => {
-                answer.push(if b { '1' } else { '0' });
+                if on_line { answer.push(if b { '1' } else { '0' }); }
                 if b != want {
                     cx.run.fail("permitted-set", &format!("allowed {name} | {}", act_tok(c)), &format!("{}", want as u8), &format!("{}", b as u8));
                 }
                 cx.run.count(&format!("{}:{}:{}:{}", street_name(g), turn_kind(g), kind_name(c), if b { "accept" } else { "reject" }));
-                if b {
-                    // accepted: apply must succeed and land in the oracle's next state
-                    let r = catch(move || gg.apply(cc));
-                    cx.run.spec_checked += 1;
-                    match r {
-                        None => cx.run.fail("accepted-action-panics", &format!("game {name} {}", act_tok(c)), "a state", "panic"),
-                        Some(child) => {
-                            if want {
-                                let n2 = nl.apply(c);
-                                if !n2.same_as(&child) || !n2.same_turn(&child) {
-                                    cx.run.fail("transition", &format!("game {name} {}", act_tok(c)), &format!("{n2:?} turn {:?}", n2.turn()), &state_line(&child));
-                                }
-                            }
-                        }
-                    }
-                } else {
-                    rejected.push(*c);
-                }
             }
         }
+        // apply, judged by the rules machine (not by the engine's own is_allowed): a permitted
+        // action must succeed and land in the machine's next state; EVERY rejected candidate must
+        // panic and leave the state we hold untouched
+        let r = catch(move || gg.apply(cc));
+        cx.run.spec_checked += 1;
+        if want {
+            match r {
+                None => cx.run.fail("accepted-action-panics", &format!("game {name} {}", act_tok(c)), "a state", "panic"),
+                Some(child) => {
+                    let n2 = nl.apply(c);
+                    let n3 = n2.clone();
+                    let same = catch(move || n3.same_as(&child) && n3.same_turn(&child)).unwrap_or(false);
+                    if !same {
+                        cx.run.fail("transition", &format!("game {name} {}", act_tok(c)), &format!("{n2:?} turn {:?}", n2.turn()), &safe_state_line(&child));
+                    }
+                }
+            }
+        } else {
+            if let Some(child) = r {
+                cx.run.fail("rejected-action-applied", &format!("game {name} {}", act_tok(c)), "panic (the rules reject this action here)", &safe_state_line(&child));
+            }
+            cx.run.count(&format!("apply-rejected:{}:{}", turn_kind(g), kind_name(c)));
+        }
+    }
+    if state_line(g) != before {
+        cx.run.fail("rejected-action-mutates", &format!("game {name}"), &before, &state_line(g));
     }
     cx.run.line(&format!("allowed {name} | {}", cands.iter().map(act_tok).collect::<Vec<_>>().join(" ")), &answer);
     cx.run.distinct(&key);
-    // rejected actions: apply panics (on its clone) and the state we hold is untouched
-    let before = state_line(g);
-    let k = rejected.len().min(if all_amounts { 12 } else { 4 });
-    for i in 0..k {
-        let c = if i < 2 { rejected[i * (rejected.len() - 1)] } else { rejected[rng.below(rejected.len() as u64) as usize] };
-        let gg = *g;
-        let r = catch(move || gg.apply(c));
+    // the same questions with TRACE logging on (every state) and from a fresh thread (1 in 16)
+    let gg = *g;
+    let cs = cands.clone();
+    let ask = move || cs.iter().map(|c| { let (g2, c2) = (gg, *c); match catch(move || g2.is_allowed(&c2)) { None => 'P', Some(true) => '1', Some(false) => '0' } }).collect::<String>();
+    let traced = ambient::with_trace(ask.clone());
+    cx.run.spec_checked += 1;
+    if traced != answer {
+        let i = traced.chars().zip(answer.chars()).position(|(a, b)| a != b).unwrap_or(0);
+        cx.run.fail("is-allowed-depends-on-logging", &format!("allowed {name} | {}", act_tok(&cands[i])), &answer[i..=i], &traced[i..=i]);
+    }
+    if cx.probed.len() % 16 == 0 {
+        let threaded = ambient::in_thread(move || ambient::with_trace(ask)).unwrap_or_default();
         cx.run.spec_checked += 1;
-        let mut h2 = hist.to_vec();
-        h2.push(c);
-        if r.is_some() {
-            cx.run.fail("rejected-action-applied", &format!("game {} {} | {}", deal.h0, deal.h1, hist_tok(&h2)), "panic", &state_line(&r.unwrap()));
+        if threaded != answer {
+            let i = threaded.chars().zip(answer.chars()).position(|(a, b)| a != b).unwrap_or(0);
+            cx.run.fail("is-allowed-depends-on-thread", &format!("allowed {name} | {}", act_tok(&cands[i.min(cands.len() - 1)])), &answer, &threaded);
         }
-        if state_line(g) != before {
-            cx.run.fail("rejected-action-mutates", &format!("game {} {} | {}", deal.h0, deal.h1, hist_tok(&h2)), &before, &state_line(g));
-        }
-        cx.run.count("apply-rejected");
+        cx.run.count("ambient:thread");
     }
 }
 
@@ -337,11 +374,12 @@ fn main() {
     let a = args();
     let mut rng = Rng::new(a.seed);
     quiet_panics();
+    ambient::install();
     let mut cx = Ctx { run: Run::new(&a.out), probed: HashSet::new() };
     let deals = make_deals(&mut rng, 24);
     let n_hist: usize = if a.thorough() { 60_000 } else { 12_000 };
     cx.run.rule = format!(
-        "{n_hist} random histories of the real Game (5 play styles x legal() ∪ every raise size, {} forced deals); every distinct visited betting state is probed once with every action kind x every amount -1..=stack+1 x 7-8 well-/ill-formed deals (is_allowed vs the NLHE rules machine; accepted actions applied and compared with the machine's next state; a sample of rejected actions applied under catch_unwind); thorough adds a breadth-first search over all reachable betting states; a case = one distinct (betting state [, deal at chance nodes]); non-trivial always",
+        "{n_hist} random histories of the real Game (5 play styles x legal() ∪ every raise size, {} forced deals); every distinct visited betting state is probed once with every action kind x every amount -1..=stack+1 x 7-8 well-/ill-formed deals (is_allowed vs the NLHE rules machine; accepted actions applied and compared with the machine's next state; every candidate the machine rejects applied under catch_unwind and required to panic; is_allowed re-asked with TRACE logging on and from fresh threads; deals with cards outside the configured deck (raw cards 52..63; in the short-deck build also ranks 2..5, oracle only)); thorough adds a breadth-first search over all reachable betting states; a case = one distinct (betting state [, deal at chance nodes]); non-trivial always",
         deals.len()
     );
     for h in 0..n_hist {
@@ -376,7 +414,7 @@ fn main() {
                 hh.push(c);
                 let r = catch(move || g.apply(c));
                 line = states[..=k].iter().map(state_line).collect::<Vec<_>>().join(" ; ")
-                    + " ; " + &match r { None => "panic".to_string(), Some(x) => state_line(&x) };
+                    + " ; " + &match r { None => "panic".to_string(), Some(x) => safe_state_line(&x) };
                 cx.run.count("history-with-rejected-tail");
             }
         }
@@ -422,11 +460,19 @@ fn bfs(cx: &mut Ctx, rng: &mut Rng, deal: &Deal) {
         cands.push(Action::Draw(hand(deal.streets[st])));
         cands.push(Action::Draw(hand(deal.streets[st] | deal.h0 & deal.h0.wrapping_neg())));
         cands.push(Action::Draw(hand(0)));
+        cands.push(Action::Draw(hand_with_raw_card(0, 60)));
         for c in &cands {
             cx.run.evaluations += 1;
             cx.run.spec_checked += 1;
             let got = g.is_allowed(c);
             let want = nl.permitted(c, full);
+            if !want && (matches!(c, Action::Draw(_) | Action::Fold | Action::Check) || cx.run.evaluations % 64 == 0) {
+                let (g2, c2) = (g, *c);
+                if let Some(child) = catch(move || g2.apply(c2)) {
+                    let path = path_of(&nodes, id);
+                    cx.run.fail("rejected-action-applied", &format!("game {} {} | {} {}", deal.h0, deal.h1, hist_tok(&path), act_tok(c)), "panic", &safe_state_line(&child));
+                }
+            }
             if got != want {
                 let path = path_of(&nodes, id);
                 cx.run.fail("permitted-set", &format!("allowed {} {} | {} | {}", deal.h0, deal.h1, hist_tok(&path), act_tok(c)), &format!("{}", want as u8), &format!("{}", got as u8));
